@@ -698,12 +698,13 @@ class FS(object):
             fs.errors.ResourceNotFound: If ``path`` does not exist.
 
         """
-        with closing(
-            self.open(
-                path, mode="rt", encoding=encoding, errors=errors, newline=newline
-            )
-        ) as read_file:
-            contents = read_file.read()
+        with self._lock:
+            with closing(
+                self.open(
+                    path, mode="rt", encoding=encoding, errors=errors, newline=newline
+                )
+            ) as read_file:
+                contents = read_file.read()
         return contents
 
     gettext = _new_name(readtext, "gettext")
@@ -1537,12 +1538,13 @@ class FS(object):
         """
         if not isinstance(contents, six.text_type):
             raise TypeError("contents must be unicode")
-        with closing(
-            self.open(
-                path, mode="wt", encoding=encoding, errors=errors, newline=newline
-            )
-        ) as write_file:
-            write_file.write(contents)
+        with self._lock:
+            with closing(
+                self.open(
+                    path, mode="wt", encoding=encoding, errors=errors, newline=newline
+                )
+            ) as write_file:
+                write_file.write(contents)
 
     settext = _new_name(writetext, "settext")
 
